@@ -126,8 +126,9 @@ def requested(n, s, m):
 
 
 def expected_table(n, spec):
-    """None = must be rejected (two keywords on one mode / a non-existing mode), else the table demanded by the theorem;
-    an entry AMBIGUOUS where one dict names a mode twice (e.g. {2: a, -1: b}, order 3): the statement demands nothing there"""
+    """None = must be rejected (two keywords on one mode / one dict naming a mode twice, e.g. {2: a, -1: b} on order 3 /
+    a non-existing mode), else the table demanded by the theorem (transcription of C11_table_iff_requested /
+    C11_reject_iff_double)"""
     modes = set(range(n))
     for s in spec.values():
         if isinstance(s, dict):
@@ -140,20 +141,18 @@ def expected_table(n, spec):
     tab = [None] * n
     for m in sorted(modes):
         hit = [(k, p) for k in KINDS for p in requested_all(n, spec.get(k), m)]
-        if len({k for k, _ in hit}) > 1 or (hit and m >= n):
+        if len(hit) > 1 or (hit and m >= n):
             return None
-        if len(hit) > 1:
-            tab[m] = AMBIGUOUS
-        elif hit:
+        if hit:
             tab[m] = hit[0]
     return tab
 
 
-AMBIGUOUS = ("?", None)
+AMBIGUOUS = ("?", None)   # not produced any more (kept for the replay of old files): since fix c019b1a one dict naming a mode twice is rejected
 
 
 def alias_by_negative_key(n, spec):
-    """the known-finding class: some dict has a negative key whose mode (Python wrap-around) is also addressed by ANOTHER
+    """the class of the finding repaired by fix c019b1a (kept as a classifier for old replay files): some dict has a negative key whose mode (Python wrap-around) is also addressed by ANOTHER
     keyword (the scan compares the raw keys and does not see it)"""
     for k, s in spec.items():
         if isinstance(s, dict):
@@ -627,7 +626,7 @@ def gen_table_cases(tier, rng):
             yield n, {k: {-n: t, 1: t}}, "negkey"
             yield n, {k: {-n - 1: t}}, "negkey"
             yield n, {k: {0: t, -n - 2: t}}, "negkey"
-            yield n, {k: {n - 1: t, -1: f}}, "negkey"          # one dict names the last mode twice: the later entry wins
+            yield n, {k: {n - 1: t, -1: f}}, "negkey"          # one dict names the last mode twice: rejected
             yield n, {k: {-2: f, n - 2: t}}, "negkey"
     forms = ["scalar", "list", "dict"]
     pairs = list(itertools.combinations(KINDS, 2))
@@ -640,7 +639,7 @@ def gen_table_cases(tier, rng):
             t1, t2 = TRUTHY[k1], TRUTHY[k2]
             yield n, {k1: {m: t1}, k2: {m2 - n: t2}}, "negkey"                                   # disjoint: valid
             yield n, {k1: {m - n: t1}, k2: form_spec(k2, rng.choice(["list", "dict"]), (m2,), n, t2)}, "negkey"
-            # the known-finding class: the negative key names a mode another keyword addresses
+            # the negative key names a mode another keyword addresses (accepted before fix c019b1a): must be rejected
             yield n, {k1: {m: t1}, k2: {m - n: t2}}, "alias"
             yield n, {k1: {m - n: t1}, k2: form_spec(k2, rng.choice(["list", "dict", "scalar"]), (m,), n, t2)}, "alias"
             if tier != "quick":
@@ -743,7 +742,7 @@ def gen_run_cfgs(tier, rng):
             spec = {k1: form_spec(k1, f1, (m,), n, RUN_PARAMS[k1][0]), k2: form_spec(k2, f2, (m,), n, RUN_PARAMS[k2][0])}
             cfg.update(n_outer=n_outer, n_inner=1, init=init, spec=spec_to_json(spec))
             yield cfg, "double"
-    # the known-finding class through the decomposition: a negative key names a mode another keyword addresses
+    # the same through the decomposition: a negative key names a mode another keyword addresses -> rejected
     for _ in range(6 * mult):
         cfg = base()
         n = len(cfg["shape"])
@@ -928,7 +927,7 @@ def run(chk):
     chk.cov["rule"] = (
         "table stream: orders 3-4 x 12 keywords x {scalar (truthy/falsy), empty list/dict, list and dict over EVERY subset of modes, "
         "short/long lists, falsy entries, out-of-range keys}; all 66 keyword pairs x 9 form pairs x sampled (thorough, order 3: all 64) pairs of mode subsets; "
-        "random triples; negative dict keys (alone, disjoint, below -n, twice in one dict, aliasing another keyword's mode = the known-finding class); "
+        "random triples; negative dict keys (alone, disjoint, below -n, twice in one dict, aliasing another keyword's mode); "
         "each compared exactly with Model/Constraints.v and judged by the Python transcription of the theorems. "
         "admm stream: tensorly.solvers.admm.admm on random well-conditioned normal equations with n_const 1/3/4, every order, inner budgets 1/2/4, "
         "provenance of the returned primal variable vs the model + feasibility; dispatch stream: proximal_operator on signed matrices, the operator "
@@ -955,7 +954,6 @@ def run(chk):
                              {"cfg": m[1], "observed_provenance": m[2]})
     chk.assumptions = [
         "dict keys are Python ints (negative keys wrap around, as list indexing does) and parameters are bool/int/float (the value space of the model)",
-        "a request in which one dict names a mode twice ({2: a, -1: b} on order 3) is compared exactly with the model but not judged by the predicates (the statement demands nothing there)",
         "feasibility of an operator's output (range subset of the constraint set) is the subject of C12; here it is evaluated on every returned factor, not proved",
         "hard_sparsity / normalized_sparsity / normalize act on the whole factor matrix in the code (k non-zeros, unit Frobenius norm, max |entry| = 1 per factor); "
         "the predicates judge exactly that (it implies the column-wise bounds)",
